@@ -1,17 +1,165 @@
-import FpgoVerif.Proofs.C06Rep
-/-! Property theorems for C06 (LinkedListQueue is a correct deque).  Work in progress: see DESIGN.md. -/
+import FpgoVerif.Proofs.C06Hist
+/-! Property theorems for C06 — "LinkedListQueue is a correct deque (queue + stack) for every operation
+    sequence".  All statements are about the definitions the driver executes (`Model/C06.lean`):
+    `run`/`step`/`offer`/… on the pointer-level heap, against `specRun`/`specStep` on the ideal sequence.
+    `initWith pick` is `NewLinkedListQueue()` under an arbitrary behaviour `pick` of `sync.Pool.Get`. -/
 namespace FpgoVerif.C06
+local notation "Addr" => Nat
 
-/-- The pinned (pre-fix) code dereferences nil on Offer, Offer, Shift, Pop, Poll. -/
-theorem C06_pinned_code_panics :
-    (let q := offer (offer init 1) 2
-     let q := (shift false q).1
-     let q := (pop false q).1
-     (shift false q).2) = Out.panic := by decide
+/-! ## The history theorems -/
 
-/-- `Offer` preserves the representation invariant and appends to the abstract sequence. -/
+/-- MAIN THEOREM.  For every finite history of Offer/Put/Push, Unshift, Poll/Take/Shift, Pop, Peek, Count,
+    Clear, KeepNodePoolCount(n), ClearNodePool (and the bookkeeping probe), with arbitrary values and under
+    every behaviour of the sync.Pool, every call on the pointer-level model returns exactly what the same call
+    returns on the ideal double-ended sequence. -/
+theorem C06_refine (pick : Nat → Nat) (ops : List Op) : run (initWith pick) ops = specRun ideal0 ops :=
+  run_refines ops (abs_init pick)
+
+/-- No history panics (no nil dereference) and no loop of Clear / putAllIntoPool / KeepNodePoolCount runs away. -/
+theorem C06_no_panic_no_hang (pick : Nat → Nat) (ops : List Op) :
+    ∀ o ∈ run (initWith pick) ops, o ≠ .panic ∧ o ≠ .hang := by
+  rw [C06_refine]; exact spec_total ops ideal0
+
+/-- What the driver prints for a case line is what the ideal deque prints, for every line. -/
+theorem C06_handle_is_ideal (line : String) : handle line = specCase line := by
+  simp only [handle, specCase, init, C06_refine]
+
+/-- After every history the representation invariant holds for the ideal contents: a duplicate-free chain
+    linked consistently in both directions holding exactly the ideal values, `count` = its length, a disjoint
+    duplicate-free free list with `nodeCount` = its length = the ideal number of spare nodes, every node in the
+    sync.Pool zeroed and unreachable. -/
+theorem C06_invariant (pick : Nat → Nat) (ops : List Op) :
+    ∃ chain pool, Rep (stateAfter (initWith pick) ops) (ops.foldl (fun s op => (specStep s op).1) ideal0).items chain pool ∧
+      pool.length = (ops.foldl (fun s op => (specStep s op).1) ideal0).spare :=
+  stateAfter_abs ops (abs_init pick)
+
+/-- Which nodes `sync.Pool.Get` hands back is unobservable. -/
+theorem C06_syncpool_choice_irrelevant (pick₁ pick₂ : Nat → Nat) (ops : List Op) :
+    run (initWith pick₁) ops = run (initWith pick₂) ops := by
+  rw [C06_refine, C06_refine]
+
+/-- One call simulates one call of the ideal deque from any state satisfying the abstraction relation. -/
+theorem C06_step_refines {q : Q} {s : Ideal} (h : Abs q s) (op : Op) :
+    (step q op).2 = (specStep s op).2 ∧ Abs (step q op).1 (specStep s op).1 := step_refines h op
+
+/-! ## The Spec says what the property says -/
+
+/-- Removals report "empty" exactly when the sequence is empty and otherwise yield the head / the tail;
+    Count is the length; pool maintenance and the probes do not change the stored values. -/
+theorem C06_spec_meaning (s : Ideal) :
+    ((specStep s .shift).2 = .empty ↔ s.items = []) ∧ ((specStep s .pop).2 = .empty ↔ s.items = []) ∧
+    (∀ a t, s.items = a :: t → specStep s .shift = ({ items := t, spare := s.spare + 1 }, .ok a)) ∧
+    (∀ l a, s.items = l ++ [a] → specStep s .pop = ({ items := l, spare := s.spare + 1 }, .ok a)) ∧
+    (∀ a t, s.items = a :: t → specStep s .peek = (s, .ok a)) ∧
+    (specStep s .count).2 = .n s.items.length ∧
+    (∀ n, (specStep s (.keep n)).1.items = s.items) ∧ (specStep s .clearPool).1.items = s.items ∧
+    (specStep s .poolInfo).1 = s ∧ (specStep s .count).1 = s ∧ (specStep s .peek).1 = s ∧
+    (∀ v, (specStep s (.offer v)).1.items = s.items ++ [v]) ∧ (∀ v, (specStep s (.unshift v)).1.items = v :: s.items) ∧
+    (specStep s .clear).1.items = [] := by
+  refine ⟨?_, ?_, ?_, ?_, ?_, rfl, fun _ => rfl, rfl, rfl, rfl, ?_, fun _ => rfl, fun _ => rfl, rfl⟩
+  · cases h : s.items <;> simp [specStep, h]
+  · rcases List.eq_nil_or_concat s.items with h | ⟨l, a, h⟩
+    · simp [specStep, h]
+    · simp [specStep, h]
+  · intro a t h; simp [specStep, h]
+  · intro l a h; simp [specStep, h]
+  · intro a t h; simp [specStep, h]
+  · cases h : s.items <;> simp [specStep, h]
+
+/-! ## Per-operation theorems (on the model's own definitions) -/
+
 theorem C06_offer_refines {q : Q} {vs chain pool} (h : Rep q vs chain pool) (v : Int) :
-    ∃ chain' pool', Rep (offer q v) (vs ++ [v]) chain' pool' :=
-  let ⟨p, hp⟩ := offer_rep h v; ⟨_, p, hp⟩
+    ∃ chain' pool', Rep (offer q v) (vs ++ [v]) chain' pool' ∧ pool'.length = pool.length - 1 := offer_rep h v
+
+theorem C06_unshift_refines {q : Q} {vs chain pool} (h : Rep q vs chain pool) (v : Int) :
+    ∃ chain' pool', Rep (unshift q v) (v :: vs) chain' pool' ∧ pool'.length = pool.length - 1 := unshift_rep h v
+
+theorem C06_shift_refines {q : Q} {vs chain pool} (h : Rep q vs chain pool) :
+    (vs = [] → shift true q = (q, .empty)) ∧
+    (∀ v t, vs = v :: t → ∃ chain' pool', (shift true q).2 = .ok v ∧ Rep (shift true q).1 t chain' pool' ∧
+      pool'.length = pool.length + 1) :=
+  ⟨fun e => shift_empty (e ▸ h), fun _ _ e => shift_rep (e ▸ h)⟩
+
+theorem C06_pop_refines {q : Q} {vs chain pool} (h : Rep q vs chain pool) :
+    (vs = [] → pop true q = (q, .empty)) ∧
+    (∀ t v, vs = t ++ [v] → ∃ chain' pool', (pop true q).2 = .ok v ∧ Rep (pop true q).1 t chain' pool' ∧
+      pool'.length = pool.length + 1) :=
+  ⟨fun e => pop_empty (e ▸ h), fun _ _ e => pop_rep (e ▸ h)⟩
+
+theorem C06_peek_count_refine {q : Q} {vs chain pool} (h : Rep q vs chain pool) :
+    (vs = [] → peek q = .empty) ∧ (∀ v t, vs = v :: t → peek q = .ok v) ∧ q.count = vs.length :=
+  ⟨fun e => peek_empty (e ▸ h), fun _ _ e => peek_cons (e ▸ h), count_rep h⟩
+
+/-- Clear terminates (the walk does not run out of fuel) and empties the sequence. -/
+theorem C06_clear_refines {q : Q} {vs chain pool} (h : Rep q vs chain pool) :
+    ∃ q', clear q = some q' ∧ Rep q' [] [] chain := clear_rep h
+
+/-- ClearNodePool terminates and is the identity on the stored values. -/
+theorem C06_clearNodePool_refines {q : Q} {vs chain pool} (h : Rep q vs chain pool) :
+    ∃ q', clearNodePool q = some q' ∧ Rep q' vs chain [] := clearNodePool_rep h.toRep0
+
+/-- KeepNodePoolCount(n) terminates, is the identity on the stored values, and leaves exactly max(n,0)
+    nodes in the free list. -/
+theorem C06_keepNodePoolCount_refines {q : Q} {vs chain pool} (h : Rep q vs chain pool) (n : Int) :
+    ∃ q' pool', keepNodePoolCount q n = some q' ∧ Rep q' vs chain pool' ∧ pool'.length = n.toNat := by
+  by_cases hn : n ≤ 0
+  · obtain ⟨q', hc, hr'⟩ := clearNodePool_rep h.toRep0
+    exact ⟨q', [], by simp [keepNodePoolCount, hn, hc], hr', by simp; omega⟩
+  · exact keep_pos_rep h.toRep0 n (by omega)
+
+/-- The bookkeeping probe: the counter and the walked length of the free list agree. -/
+theorem C06_nodeCount_is_pool_length {q : Q} {vs chain pool} (h : Rep q vs chain pool) :
+    q.nodeCount = pool.length ∧ walkLen (q.fresh + 1) q.next q.poolFirst = some pool.length :=
+  ⟨h.hnode, walkLen_spec _ h.hpool h.pool_len_lt⟩
+
+/-- `sync.Pool.Get` under its contract (returns a node that was Put, as it is, or a new zeroed one): under the
+    invariant the node is always zeroed and unknown to the queue — the fact generateNode/KeepNodePoolCount rely on. -/
+theorem C06_syncpool_get_zeroed {q : Q} {vs chain pool} (h : Rep q vs chain pool) :
+    Rep0 (poolGet q).1 vs chain pool ∧ (poolGet q).2 ∉ chain ++ pool ∧
+      (poolGet q).1.next (poolGet q).2 = none ∧ (poolGet q).1.prev (poolGet q).2 = none ∧
+      (poolGet q).1.val (poolGet q).2 = none := by
+  obtain ⟨h0, _, hn, _, _, h1, h2, h3⟩ := poolGet_spec h.toRep0 (poolGet q).1 (poolGet q).2 rfl
+  exact ⟨h0, hn, h1, h2, h3⟩
+
+/-! ## Non-vacuity: states satisfying the hypotheses -/
+
+example : Abs init ideal0 := abs_init _
+example : Rep init [] [] [] := by
+  obtain ⟨c, p, h, _⟩ := abs_init (fun _ => 0)
+  have hc : c = [] := by have := h.length_eq; simpa [ideal0] using this.symm
+  have hp : p = [] := by subst hc; exact (show Seg init.next none p from h.hpool).nil_of_none
+  subst hc; subst hp; exact h
+/-- a two-element queue with a recycled node in the free list -/
+example : ∃ chain pool, Rep (shift true (offer (offer (offer init 1) 2) 3)).1 [2, 3] chain pool ∧ pool.length = 1 := by
+  obtain ⟨c, p, h, hl⟩ := abs_init (fun _ => 0)
+  obtain ⟨c1, p1, h1, hl1⟩ := offer_rep h 1
+  obtain ⟨c2, p2, h2, hl2⟩ := offer_rep h1 2
+  obtain ⟨c3, p3, h3, hl3⟩ := offer_rep h2 3
+  obtain ⟨c4, p4, _, h4, hl4⟩ := shift_rep (v := 1) (vs := [2, 3]) h3
+  have hl0 : p.length = 0 := hl
+  exact ⟨c4, p4, h4, by omega⟩
+/-- the main theorem is not about trivial outputs -/
+example : run init [.offer 1, .offer 2, .unshift 0, .pop, .shift, .count, .clear, .poolInfo, .shift] =
+    [.nil, .nil, .nil, .ok 2, .ok 0, .n 1, .nil, .pool 1 (some 1), .empty] := by decide
+
+/-! ## Refutation of the pinned (pre-`e2a196c`) code: both manifestations of the dangling link -/
+
+/-- The pinned code dereferences nil on Offer, Offer, Shift, Pop, Poll. -/
+theorem C06_pinned_code_panics :
+    runF false init [.offer 1, .offer 2, .shift, .pop, .shift] = [.nil, .nil, .ok 1, .ok 2, .panic] := by decide
+
+/-- The pinned code loops forever in Clear after Offer, Offer, Pop, Unshift (the dangling `Next` closes a cycle
+    through the recycled node: the walk needs more steps than there are nodes). -/
+theorem C06_pinned_code_clear_hangs :
+    runF false init [.offer 1, .offer 2, .pop, .unshift 3, .clear] = [.nil, .nil, .ok 2, .nil, .hang] := by decide
+
+/-- …so the pinned code violates the property (it is not a refinement of the ideal deque), while the
+    current code handles the same two histories (instance of `C06_refine`). -/
+theorem C06_pinned_code_refuted :
+    ¬ (∀ ops, runF false init ops = specRun ideal0 ops) := by
+  intro h
+  have := h [.offer 1, .offer 2, .shift, .pop, .shift]
+  rw [C06_pinned_code_panics] at this
+  revert this; decide
 
 end FpgoVerif.C06
